@@ -54,7 +54,11 @@ func apiCalls() []apiCall {
 		rd("Slice(4)", 4, func(r netpoll.Reader) ([]byte, error) { _, e := r.Slice(4); return nil, e }),
 		misc("Until", func(c netpoll.Connection) error { _, e := c.Reader().Until('\n'); _ = e; return nil }),
 		misc("Release", func(c netpoll.Connection) error { return c.Reader().Release() }),
-		misc("Read(4)", func(c netpoll.Connection) error { _, e := c.Read(make([]byte, 4)); _ = e; return nil }),
+		{name: "Read(4)", need: 1, fn: func(c netpoll.Connection) ([]byte, error) { // io.Reader style: needs one byte
+			p := make([]byte, 4)
+			n, e := c.Read(p)
+			return p[:n], e
+		}},
 		wr("Malloc(1)", func(w netpoll.Writer) error { _, e := w.Malloc(1); return e }),
 		misc("MallocLen", func(c netpoll.Connection) error { c.Writer().MallocLen(); return nil }),
 		wr("Flush", func(w netpoll.Writer) error { return w.Flush() }),
